@@ -4,6 +4,7 @@
      Lagrange.refine          (168-209)  -> init_weights / extend_weights / refine1
      Lagrange.predict         (211-265)  -> node_tol / basis1 / tpredict
      Lagrange.gradient        (267-340)  -> dbasis1 / tgrad
+     Lagrange.hessian         (342-466)  -> d2basis1 / thess
    and of the MISC combination in Component.predict (component.py:1048-1072) -> misc_predict.
    The tensor sum is written as nested 1-d sums (row-major, last dimension fastest, as
    itertools.product enumerates it); in exact arithmetic this equals the flat sum the code forms.
@@ -151,6 +152,57 @@ Fixpoint tgrad (k : nat) (gs : list grid) (x : list F) (ys : list F) : F :=
   | _, [] => f0
   end.
 
+(* ------------------------------------------------------------------ Hessian (interpolator.py:342-466) *)
+(* second derivative of the 1-d basis functions at x, as coded: generic branch front*(first+second) with
+   qsum_p = -sum w/d^2, qsum_pp = 2 sum w/d^3; at this node 2 (sum_p (w_p/w_j)/(x-x_p))^2 + 2 sum_p (w_p/w_j)/(x-x_p)^2;
+   at another node s: (-2 (w_j/w_s)/(x_s-x_j)) * (sum_{p<>s} (w_p/w_s)/(x_s-x_p) + 1/(x_s-x_j)), which uses the NODE x_s
+   (not the evaluation point); the last one overrides *)
+Definition d2basis1 (tol : F) (xs ws : list F) (x : F) : list F :=
+  let ds := diffs1 tol xs x in
+  let quot := map2 (fun w (d : F * bool) => w / fst d) ws ds in
+  let qsum := sumF K quot in
+  let qp := opp K (sumF K (map2 (fun w (d : F * bool) => w / (fst d * fst d)) ws ds)) in
+  let two := f1 + f1 in
+  let qpp := two * sumF K (map2 (fun w (d : F * bool) => w / (fst d * fst d * fst d)) ws ds) in
+  let n := length xs in
+  map (fun j =>
+    let wj := nth j ws f0 in let dj := nth j ds (f1, false) in
+    let front := wj / (qsum * fst dj) in
+    let first := opp K (qpp / qsum) + two * ((qp / qsum) * (qp / qsum)) in
+    let second := two * (qp / (qsum * fst dj)) + two / (fst dj * fst dj) in
+    let generic := front * (first + second) in
+    let others := filter (fun p => negb (Nat.eqb p j) && snd (nth p ds (f1, false))) (seq 0 n) in
+    match others with
+    | s :: _ =>
+        let xsn := nth s xs f0 in let wsn := nth s ws f0 in
+        let cdiff := xsn - nth j xs f0 in
+        (opp K two * (wj / wsn) / cdiff) *
+        (sumF K (map (fun p => (nth p ws f0 / wsn) / (xsn - nth p xs f0))
+                     (filter (fun p => negb (Nat.eqb p s)) (seq 0 n))) + f1 / cdiff)
+    | [] =>
+        if snd dj
+        then let r := filter (fun p => negb (Nat.eqb p j)) (seq 0 n) in
+             let s1 := sumF K (map (fun p => (nth p ws f0 / wj) / (x - nth p xs f0)) r) in
+             let s2 := sumF K (map (fun p => (nth p ws f0 / wj) / ((x - nth p xs f0) * (x - nth p xs f0))) r) in
+             two * (s1 * s1) + two * s2
+        else generic
+    end) (seq 0 n).
+
+(* d2/dx_m dx_n of the tensor interpolant: m = n uses d2basis1 in that dimension; m <> n uses dbasis1 in both *)
+Fixpoint thess (m n : nat) (gs : list grid) (x : list F) (ys : list F) : F :=
+  match gs, x with
+  | [], _ => f0
+  | (tol, (xs, ws)) :: gs', x0 :: x' =>
+      let ch := chunks (length xs) (gsizes gs') ys in
+      match m, n with
+      | O, O => sumF K (map2 (fun b c => b * tpredict gs' x' c) (d2basis1 tol xs ws x0) ch)
+      | O, S n' => sumF K (map2 (fun b c => b * tgrad n' gs' x' c) (dbasis1 tol xs ws x0) ch)
+      | S m', O => sumF K (map2 (fun b c => b * tgrad m' gs' x' c) (dbasis1 tol xs ws x0) ch)
+      | S m', S n' => sumF K (map2 (fun b c => b * thess m' n' gs' x' c) (basis1 tol xs ws x0) ch)
+      end
+  | _, [] => f0
+  end.
+
 (* ------------------------------------------------------------------ MISC combination *)
 (* terms: (weight, grids, data) for the indices of the set in use; zero weights are skipped *)
 Definition misc_predict (terms : list (F * (list grid * list F))) (x : list F) : F :=
@@ -158,6 +210,10 @@ Definition misc_predict (terms : list (F * (list grid * list F))) (x : list F) :
               (filter (fun t => negb (eqb K (fst t) f0)) terms)).
 Definition misc_grad (k : nat) (terms : list (F * (list grid * list F))) (x : list F) : F :=
   sumF K (map (fun t => fst t * tgrad k (fst (snd t)) x (snd (snd t)))
+              (filter (fun t => negb (eqb K (fst t) f0)) terms)).
+
+Definition misc_hess (m n : nat) (terms : list (F * (list grid * list F))) (x : list F) : F :=
+  sumF K (map (fun t => fst t * thess m n (fst (snd t)) x (snd (snd t)))
               (filter (fun t => negb (eqb K (fst t) f0)) terms)).
 
 (* sum of absolute values of the summands, for the condition-aware rounding bound of DESIGN 3.3 *)
